@@ -13,6 +13,7 @@ import (
 	"time"
 
 	"cuelabs.dev/go/oci/ociregistry"
+	"cuelabs.dev/go/oci/ociregistry/ocifilter"
 	"cuelabs.dev/go/oci/ociregistry/ocimem"
 
 	"verif/vcore"
@@ -56,6 +57,10 @@ type c08Harness struct {
 	// session, opened over HTTP against a registry whose minimum chunk size is MinChunk). The client
 	// serialises them: every write succeeds, and after Close the session holds the pieces, each whole,
 	// in one of the two orders.
+	// "nothing-deleted-through-immutable": the threads work through ocifilter.Immutable over a mutable
+	// ocimem. Whatever the overlap (the wrapper documents a window in which a tag pushed twice at once may
+	// be seen to move; that is not judged), no deletion reaches the registry underneath and everything
+	// the prologue stored - every manifest, every tag binding - is still there afterwards.
 	Oracle   string `json:"oracle,omitempty"`
 	MinChunk int    `json:"registry_min_chunk,omitempty"`
 }
@@ -94,6 +99,32 @@ type c08Exec struct {
 	hands    []ociregistry.BlobWriter
 	panicMsg string
 	spy      *idSpy
+	del      *delSpy
+}
+
+// delSpy notes every deletion that reaches the registry underneath a wrapper.
+type delSpy struct {
+	ociregistry.Interface
+	mu    sync.Mutex
+	calls []string
+}
+
+func (d *delSpy) note(s string) {
+	d.mu.Lock()
+	d.calls = append(d.calls, s)
+	d.mu.Unlock()
+}
+func (d *delSpy) DeleteBlob(ctx context.Context, repo string, dig ociregistry.Digest) error {
+	d.note("DeleteBlob " + repo + " " + string(dig))
+	return d.Interface.DeleteBlob(ctx, repo, dig)
+}
+func (d *delSpy) DeleteManifest(ctx context.Context, repo string, dig ociregistry.Digest) error {
+	d.note("DeleteManifest " + repo + " " + string(dig))
+	return d.Interface.DeleteManifest(ctx, repo, dig)
+}
+func (d *delSpy) DeleteTag(ctx context.Context, repo string, tag string) error {
+	d.note("DeleteTag " + repo + " " + tag)
+	return d.Interface.DeleteTag(ctx, repo, tag)
 }
 
 // idSpy notes the ID under which the backend opened its (one) upload session.
@@ -143,6 +174,10 @@ func (e *c08Exec) body(s *vsched.Sched) {
 	e.reg = e.mem
 	if e.h.HTTP {
 		e.reg, _ = httpStack(e.mem, nil, nil)
+	}
+	if e.h.Oracle == "nothing-deleted-through-immutable" {
+		e.del = &delSpy{Interface: e.mem}
+		e.reg = ocifilter.Immutable(e.del)
 	}
 	if e.h.Oracle == "one-client-writer" {
 		// the registry's writers report a tiny minimum chunk size, so that a write of a few bytes is a request
@@ -221,6 +256,25 @@ func (e *c08Exec) verdict() (bool, string) {
 	}
 	if e.h.Oracle == "one-client-writer" {
 		return e.oneClientWriter()
+	}
+	if e.h.Oracle == "nothing-deleted-through-immutable" {
+		if len(e.del.calls) > 0 {
+			return false, "deletions reached the registry underneath the immutable wrapper: " + strings.Join(e.del.calls, "; ")
+		}
+		ctx := context.Background()
+		for name, mr := range e.model0.Repos {
+			for d := range mr.Mans {
+				if _, err := e.mem.ResolveManifest(ctx, name, d); err != nil {
+					return false, fmt.Sprintf("manifest %s of %s, stored before the threads started, is gone: %v", d, name, err)
+				}
+			}
+			for t, want := range mr.Tags {
+				if got, err := e.mem.ResolveTag(ctx, name, t); err != nil || got.Digest != want.Digest {
+					return false, fmt.Sprintf("tag %s of %s, bound to %s before the threads started, now gives %s %v", t, name, want.Digest, got.Digest, err)
+				}
+			}
+		}
+		return true, ""
 	}
 	return e.linearizable()
 }
